@@ -10,7 +10,8 @@ def main():
         return 2
     cmd = args[0]
     try:
-        B.lock()
+        if cmd != 'selftest':
+            B.lock()
         if cmd == 'setup':
             from verifkit import setup
             return setup.main(args[1:])
